@@ -10,7 +10,8 @@ package actionlint
 // with arbitrary text, anchors / aliases / merge keys, deep nesting, invalid UTF-8, block forms);
 // (b) all byte strings of length <= 2 on each channel; (c) all token sequences / character strings
 // of C04 inside a ${{ }} placeholder and a bare if: condition through the whole Linter.
-// (d) every needs graph on <= 3 (thorough 4) jobs.
+// (d) every needs graph on <= 3 (thorough 4) jobs; (e) every workflow of the repository's testdata
+// with one line at a time re-cased.
 // Oracle: no panic; result is ([]*Error, nil) or (nil, error); termination (watchdog);
 // unrecoverable runtime errors are caught by vcheck through the progress file.
 
@@ -19,6 +20,7 @@ import (
 	"fmt"
 	"os"
 	"path/filepath"
+	"sort"
 	"strings"
 	"testing"
 )
@@ -412,6 +414,75 @@ func TestVerifC01(t *testing.T) {
 			r.Begin(func() string { return what })
 			res := vLint(src, nil)
 			c01Oracle(r, chans[0], what, res, map[string]any{"channel": "workflow", "content": src})
+		}
+	}
+
+	// (e) the repository's own workflows (every rule has examples there) with one line at a time
+	// re-cased (upper case / capitalised words / lower case, the key of a "key: value" line kept):
+	// strings that reach a rule's special handling in a spelling its tests do not use
+	repoDir := os.Getenv("VERIF_REPO")
+	if repoDir == "" {
+		repoDir = "/repo"
+	}
+	var corpusFiles []string
+	for _, g := range []string{"testdata/examples/*.yaml", "testdata/ok/*.yaml", "testdata/err/*.yaml"} {
+		m, _ := filepath.Glob(filepath.Join(repoDir, g))
+		corpusFiles = append(corpusFiles, m...)
+	}
+	sort.Strings(corpusFiles)
+	r.Bounds["corpus_files_recased_line_by_line"] = len(corpusFiles)
+	if len(corpusFiles) < 150 {
+		r.HarnessError("corpus too small: %d files", len(corpusFiles))
+	}
+	title := func(s string) string {
+		b := []byte(strings.ToLower(s))
+		up := true
+		for i, c := range b {
+			if up && c >= 'a' && c <= 'z' {
+				b[i] = c - 32
+			}
+			up = !(c >= 'a' && c <= 'z' || c >= 'A' && c <= 'Z')
+		}
+		return string(b)
+	}
+	for _, f := range corpusFiles {
+		raw, err := os.ReadFile(f)
+		if err != nil {
+			continue
+		}
+		lines := strings.Split(string(raw), "\n")
+		for li, line := range lines {
+			trim := strings.TrimLeft(line, " -")
+			if trim == "" || strings.HasPrefix(trim, "#") {
+				continue
+			}
+			head := line[:len(line)-len(trim)]
+			// keep the key of "key: value" lines
+			if i := strings.Index(trim, ": "); i > 0 && !strings.ContainsAny(trim[:i], " '\"{[") {
+				head += trim[:i+2]
+				trim = trim[i+2:]
+			} else if strings.HasSuffix(trim, ":") {
+				continue
+			}
+			for vi, variant := range []string{strings.ToUpper(trim), title(trim), strings.ToLower(trim)} {
+				if variant == trim {
+					continue
+				}
+				idx++
+				if !r.Mine(idx) {
+					continue
+				}
+				if idx%512 == 0 && r.Expired() {
+					return
+				}
+				mod := append(append([]string{}, lines[:li]...), head+variant)
+				mod = append(mod, lines[li+1:]...)
+				src := strings.Join(mod, "\n")
+				what := fmt.Sprintf("%s line %d variant %d", strings.TrimPrefix(f, repoDir+"/"), li+1, vi)
+				r.Begin(func() string { return what })
+				res := vLint(src, nil)
+				c01Oracle(r, chans[0], what, res, map[string]any{"channel": "workflow", "content": src})
+			}
 		}
 	}
 
